@@ -59,7 +59,14 @@ type row struct {
 	Accept   bool    `json:"accept"`
 	Why      string  `json:"why"`
 	Baseline bool    `json:"baseline"`
+	Shape    string  `json:"shape"`    // plain | dupname:* | duppol:* (repeated map key, last occurrence wins)
+	Eff      string  `json:"eff"`      // which occurrence survives decoding: case | decoy
+	DupLegal bool    `json:"duplegal"` // the era accepts repeated keys (last wins)
+	DupBase  bool    `json:"dupbaseline"`
 }
+
+// decoyQty is the in-range quantity of the other occurrence of a repeated key
+const decoyQty = 5
 
 type meta struct {
 	MaxQ         int64 `json:"maxq"`
@@ -231,6 +238,7 @@ type asset struct {
 	policy int // 0 = the case's token, 1 = the companion token
 	qty    *big.Int
 	form   string
+	shape  string // "" / plain, or a repeated-key shape
 }
 
 type plan struct {
@@ -280,7 +288,26 @@ func (w *world) value(coin uint64, as []asset) ([]byte, error) {
 		if err != nil {
 			return nil, err
 		}
-		pols = append(pols, kv{cBytes(w.policies[a.policy]), cMap(kv{cBytes(w.names[a.policy]), q})})
+		pol, name, decoy := cBytes(w.policies[a.policy]), cBytes(w.names[a.policy]), cUint(decoyQty)
+		one := func(v []byte) []byte { return cMap(kv{name, v}) }
+		switch a.shape {
+		case "", "plain":
+			pols = append(pols, kv{pol, one(q)})
+		case "dupname:same":
+			pols = append(pols, kv{pol, cMap(kv{name, q}, kv{name, q})})
+		case "dupname:decoyfirst":
+			pols = append(pols, kv{pol, cMap(kv{name, decoy}, kv{name, q})})
+		case "dupname:decoylast":
+			pols = append(pols, kv{pol, cMap(kv{name, q}, kv{name, decoy})})
+		case "duppol:same":
+			pols = append(pols, kv{pol, one(q)}, kv{pol, one(q)})
+		case "duppol:decoyfirst":
+			pols = append(pols, kv{pol, one(decoy)}, kv{pol, one(q)})
+		case "duppol:decoylast":
+			pols = append(pols, kv{pol, one(q)}, kv{pol, one(decoy)})
+		default:
+			return nil, fmt.Errorf("unknown encoding shape %q", a.shape)
+		}
 	}
 	return cArr(cUint(coin), cMap(pols...)), nil
 }
@@ -501,9 +528,13 @@ func classPlan(r *row) (*plan, *big.Int, error) {
 		return nil, nil, fmt.Errorf("representative %q is not in class %q", r.Rep, r.Cls)
 	}
 	p := &plan{era: r.Era, of: r.Of}
-	caseOut := []asset{tok(q, r.Form)}
+	caseOut := []asset{{policy: 0, qty: q, form: r.Form, shape: r.Shape}}
 	var others [][]asset
 	one := big.NewInt(1)
+	written := q
+	if r.Eff == "decoy" {
+		q = big.NewInt(decoyQty) // the occurrence that survives decoding: value is conserved for it
+	}
 	switch {
 	case q.BitLen() > 70:
 		p.ins = single(admissible(one))
@@ -537,7 +568,7 @@ func classPlan(r *row) (*plan, *big.Int, error) {
 	} else {
 		p.outs = append(others, caseOut)
 	}
-	return p, q, nil
+	return p, written, nil
 }
 
 func pairPlan(r *row) (*plan, error) {
@@ -545,7 +576,7 @@ func pairPlan(r *row) (*plan, error) {
 	if !ok {
 		return nil, fmt.Errorf("unknown magnitude %q", r.Mag)
 	}
-	pos, ng := []asset{tok(q, r.PForm)}, []asset{tok(new(big.Int).Neg(q), r.NForm)}
+	pos, ng := []asset{tok(q, r.PForm)}, []asset{{policy: 0, qty: new(big.Int).Neg(q), form: r.NForm, shape: r.Shape}}
 	p := &plan{era: r.Era, of: r.Of}
 	if r.Order == "negfirst" {
 		p.outs = [][]asset{ng, pos}
@@ -555,7 +586,7 @@ func pairPlan(r *row) (*plan, error) {
 	return p, nil
 }
 
-func txPlan(r *row, era, of string, scale *big.Int, enc string) *plan {
+func txPlan(r *row, era, of string, scale *big.Int, enc, shape string) *plan {
 	p := &plan{era: era, of: of}
 	for _, i := range r.Ins {
 		p.ins = append(p.ins, []asset{admissible(new(big.Int).Mul(big.NewInt(i), scale))})
@@ -566,7 +597,7 @@ func txPlan(r *row, era, of string, scale *big.Int, enc string) *plan {
 		if enc == "big" {
 			f = bigForm(q)
 		}
-		p.outs = append(p.outs, []asset{tok(q, f)})
+		p.outs = append(p.outs, []asset{{policy: 0, qty: q, form: f, shape: shape}})
 	}
 	return p
 }
@@ -674,6 +705,7 @@ func main() {
 	rejectedBy := map[string]int{}
 	sampled := map[string]bool{}
 	var silentExample string
+	dupAccepted := map[string]int{} // repeated-key outputs with an in-range surviving quantity that were accepted
 
 	run := func(r *row, key, group string, p *plan, canonical bool) {
 		env, ok := envs[p.era]
@@ -702,6 +734,16 @@ func main() {
 			if sk := r.Kind + "/" + r.Why; !sampled[sk] && (r.Kind != "tx" || len(r.Outs) >= 2) {
 				sampled[sk] = true
 				rep.Sample(map[string]any{"key": key, "spec_accept": r.Accept, "code": oc})
+			}
+			if r.DupBase && oc.Accepted {
+				dupAccepted[p.era+"/"+p.of]++
+			}
+			if r.Shape != "" && r.Shape != "plain" {
+				if oc.Accepted {
+					stats["repeated_key_accepted:"+p.era]++
+				} else {
+					stats["repeated_key_rejected:"+p.era]++
+				}
 			}
 			switch {
 			case oc.Accepted && !r.Accept:
@@ -746,27 +788,29 @@ func main() {
 			if cf := canonForm(q); (r.Form == "uint" || r.Form == "nint") && cf != r.Form {
 				rep.Dead("representative %s cannot be written as %s", r.Rep, r.Form)
 			}
-			key := fmt.Sprintf("class:cls=%s:rep=%s:form=%s:era=%s:of=%s:pos=%d:comp=%s", r.Cls, r.Rep, r.Form, r.Era, r.Of, r.Pos, r.Comp)
+			key := fmt.Sprintf("class:cls=%s:rep=%s:form=%s:era=%s:of=%s:pos=%d:comp=%s:shape=%s", r.Cls, r.Rep, r.Form, r.Era, r.Of, r.Pos, r.Comp, r.Shape)
 			if r.Baseline {
 				seenBaseline[r.Era+"/"+r.Of]++
 			}
-			run(r, key, "class:"+r.Cls, p, r.Form == "uint")
+			run(r, key, "class:"+r.Cls+":"+r.Shape, p, r.Form == "uint")
 		case "pair":
 			p, err := pairPlan(r)
 			if err != nil {
 				rep.Dead("pair case: %v", err)
 			}
-			key := fmt.Sprintf("pair:mag=%s:neg=%s:pos=%s:era=%s:of=%s:order=%s", r.Mag, r.NForm, r.PForm, r.Era, r.Of, r.Order)
-			run(r, key, "pair:"+r.Mag, p, false)
+			key := fmt.Sprintf("pair:mag=%s:neg=%s:pos=%s:era=%s:of=%s:order=%s:shape=%s", r.Mag, r.NForm, r.PForm, r.Era, r.Of, r.Order, r.Shape)
+			run(r, key, "pair:"+r.Mag+":"+r.Shape, p, false)
 		case "tx":
 			for k := 0; k < perCase; k++ {
 				ef := eraForms[(idx*5+k*7+int(vh.Seed()))%len(eraForms)]
-				enc := "canon"
+				// second replay: bignum forms and every token entry written twice
+				// (same quantity, so the last-wins result is the case's transaction)
+				enc, shape := "canon", "plain"
 				if k%2 == 1 {
-					enc = "big"
+					enc, shape = "big", []string{"dupname:same", "duppol:same"}[idx%2]
 				}
-				key := fmt.Sprintf("tx:why=%s:ins=%s:outs=%s:era=%s:of=%s:enc=%s", r.Why, ints(r.Ins), ints(r.Outs), ef.era, ef.of, enc)
-				run(r, key, "tx:"+r.Why, txPlan(r, ef.era, ef.of, scale, enc), enc == "canon")
+				key := fmt.Sprintf("tx:why=%s:ins=%s:outs=%s:era=%s:of=%s:enc=%s:shape=%s", r.Why, ints(r.Ins), ints(r.Outs), ef.era, ef.of, enc, shape)
+				run(r, key, "tx:"+r.Why+":"+shape, txPlan(r, ef.era, ef.of, scale, enc, shape), enc == "canon")
 			}
 		default:
 			rep.Dead("unknown case kind %q", r.Kind)
@@ -777,6 +821,15 @@ func main() {
 			rep.Dead("no baseline case (quantity 1 and 2^64-1 in canonical form) for %s/%s", ef.era, ef.of)
 		}
 	}
+	for _, ef := range eraForms {
+		if ef.era == "mary" || ef.era == "alonzo" || ef.era == "babbage" {
+			if dupAccepted[ef.era+"/"+ef.of] == 0 {
+				rep.Dead("no %s/%s output with a repeated multi-asset key and an in-range surviving quantity was accepted: "+
+					"the lenient (last-wins) decoding path of the pre-Conway eras was not exercised", ef.era, ef.of)
+			}
+		}
+	}
+	rep.Extra["c08_repeated_key_outputs_accepted_pre_conway"] = dupAccepted
 	if stats["tx:spec_accept"] == 0 || stats["class:spec_accept"] == 0 {
 		rep.Dead("no accepted case was replayed: %v", stats)
 	}
@@ -792,6 +845,7 @@ func main() {
 		"in-range quantities written as tag-2 bignums: rejection or acceptance are both allowed (counted above)",
 		"collateral-return outputs and mint fields (the property is about transaction outputs)",
 		"whether explicit zero quantities are rejected (Conway CDDL) or pruned: zero is in range",
+		"whether an era rejects a repeated policy / asset-name key outright (Conway, Dijkstra do) or takes the last occurrence: only accepted => surviving quantity in range",
 	}
 	rep.Finish()
 }
